@@ -13,6 +13,7 @@ from . import c02, driver, evm_ref as E, pool, report, families, spec_eval as SE
 from . import sm_search
 
 GATE_ONLY = set()  # option sets that only contribute the size-gating figure (quick tier: -size with rules off)
+GATE_NODE_CAP = 6000
 GATE_MAX_LEN = 7  # size gating is decided by explicit-state search on blocks of at most this many instructions
 
 NAME = c02.NAME
@@ -63,7 +64,7 @@ def min_bytes(ctx, block, specs):
     L, H = len(block) + 2, peak_height(block) + 1
     total = states = 0
     for key in sorted(specs):
-        r = sm_search.search(specs[key], L, H, weights(specs[key], "size", push0), node_cap=60000)
+        r = sm_search.search(specs[key], L, H, weights(specs[key], "size", push0), node_cap=GATE_NODE_CAP)
         states += r["states"]
         if not r["found"]:
             return None, states, ("capped" if r["capped"] else "not-realizable-within-block-bounds")
@@ -171,7 +172,7 @@ def main(tier, seed, only=None):
             gate.setdefault(B.to_text(block), {})["off" if "-no-simplification" in cfg else "on"] = value["gate"]
             tot["gate_states"] += value["gate"]["states"]
 
-    tasks = [(cfg, ch) for cfg in cfgs for ch in pool.chunks(blocks, max(300, len(blocks) // 16 + 1))]
+    tasks = [(cfg, ch) for cfg in cfgs for ch in pool.chunks(blocks, 600 if "-size" in cfg else max(300, len(blocks) // 16 + 1))]
     pool.run_tasks(tasks, work, setup=driver.setup_ctx, unit_timeout=20, on_result=on_result)
     # size gating: with -size, rules must not make the cheapest realization of the specification larger
     g = {"pairs": 0, "with_rules": 0, "smaller": 0, "equal": 0, "undecided": 0}
